@@ -114,8 +114,11 @@ RECVS = ["&self", "&mut self", "self"]
 
 
 class Meth:
-    def __init__(self, name, recv, args=(), ret=None, custom=False, skip=False):
+    def __init__(self, name, recv, args=(), ret=None, custom=False, skip=False, raw=None):
         self.name, self.recv, self.args, self.ret = name, recv, [list(a) for a in args], ret
+        # raw: (lifetime binder, parameter text) written verbatim - methods with several named lifetimes; such parameters are
+        # not edited (args stays empty), name / receiver / return type / position are
+        self.raw = raw
         # skip: a Rust-side helper with a default body that gets no vtable entry (#[skip_func])
         self.skip = skip
         # custom: the C side of the method is hand-written with #[custom_impl] (same C argument / return types as the Rust
@@ -129,6 +132,8 @@ class Meth:
             cargs = "".join(" %s: %s," % (n, t) for n, t in self.args)
             sig = "fn %s(%s%s)%s;" % (self.name, self.recv, "".join(", %s: %s" % (n, t) for n, t in self.args), "" if self.ret is None else " -> " + self.ret)
             return "#[custom_impl({%s }, %s, { }, { }, { },)]\n    %s" % (cargs, self.ret or "()", sig)
+        if self.raw:
+            return "fn %s%s(%s, %s)%s;" % (self.name, self.raw[0], self.recv, self.raw[1], "" if self.ret is None else " -> " + self.ret)
         is_ref_ret = self.ret is not None and self.ret.startswith("&")
         recv, ret, lt = self.recv, self.ret, ""
         if is_ref_ret:
@@ -162,7 +167,8 @@ class Trait:
 class Def:
     """One definition: helper traits + either a main trait or a group over the traits."""
 
-    def __init__(self, traits, main=None, group=None):
+    def __init__(self, traits, main=None, group=None, edits=None):
+        self.edits = edits            # None, or a function Def -> list of edits replacing the generic edit generators
         self.traits = traits          # list of Trait, in source order
         self.main = main              # name of the trait whose object types are compared, or
         self.group = group            # (name, [mandatory names], [optional names])
@@ -242,6 +248,18 @@ BASES = [
                                       Meth("m1", "&self", [], "CBox<'static, u32>")])], main="Tr")),
     ("custom", True, Def([Trait("Tr", [Meth("m0", "&self", [("a", "u32")], "u32", custom=True),
                                        Meth("m1", "&self", [("a", "u64")], "u64")])], main="Tr")),
+    # methods with several named lifetimes, each used more than once: the lifetime numbering inside the description of a function
+    # pointer must be the same for every expansion of the same text (identical twin = Valid), every edit is still seen
+    ("lifetimes", True, Def([Trait("Tr", [
+        Meth("m0", "&self", ret="u32", raw=("<'a, 'b, 'c>", "a: &'a u32, a2: &'a u32, b: &'b u32, b2: &'b u32, c: &'c u32, c2: &'c u32")),
+        Meth("m1", "&mut self", ret=None, raw=("<'x, 'y, 'z>", "a: &'x u32, a2: &'x u32, b: &'y u32, b2: &'y u32, c: &'z u32, c2: &'z u32")),
+        Meth("m2", "&self", ret="u64", raw=("<'x, 'y, 'z>", "a: &'x u64, b: &'y u64, c: &'z u64, a2: &'x u64, b2: &'y u64, c2: &'z u64")),
+        Meth("m3", "&mut self", ret="u32", raw=("<'p, 'q, 'r>", "a: &'r u8, a2: &'r u8, b: &'q u8, b2: &'q u8, c: &'p u8, c2: &'p u8"))])], main="Tr")),
+    # one generic trait instantiated TWICE in a group (aliased): an edit of the type argument of either instantiation is seen
+    ("grp_gen2", True, Def([Trait("Tg", [Meth("g0", "&self", [("a", "X")], "X")], generics="<X>")],
+                           group=("Grp", ["Tg<u32> = Ga", "Tg<u64> = Gb"], []), edits=lambda d: gen2_edits(d, 1))),
+    ("grp_gen2_opt", True, Def([Trait("Tg", [Meth("g0", "&self", [("a", "X")], "X")], generics="<X>")],
+                               group=("Grp", ["Tg<u32> = Ga"], ["Tg<u64> = Gb"]), edits=lambda d: gen2_edits(d, 2))),
     ("super_send", False, one("m0", "&self", [("a", "u64")], "u64", supers="Send")),
     ("grp5", False, Def([simple_trait("Ta", "a0"), simple_trait("Tb", "b0"), simple_trait("Tc", "c0"),
                          simple_trait("Td", "d0"), simple_trait("Te", "e0")],
@@ -382,7 +400,26 @@ def group_edits(d):
     return out
 
 
+def gen2_edits(d, second_list):
+    """group with two aliased instantiations of one generic trait: type-argument edits of the first / the second one"""
+    out = []
+
+    def emit(name, lst, old, new):
+        nd = copy.deepcopy(d)
+        l = nd.group[lst]
+        l[l.index(old)] = new
+        out.append((name, "generic_instantiation", nd, NOT_VALID, ""))
+    emit("second:u64->i64", second_list, "Tg<u64> = Gb", "Tg<i64> = Gb")
+    emit("second:u64->u8", second_list, "Tg<u64> = Gb", "Tg<u8> = Gb")
+    emit("second:u64->u16", second_list, "Tg<u64> = Gb", "Tg<u16> = Gb")
+    emit("first:u32->i32", 1, "Tg<u32> = Ga", "Tg<i32> = Ga")
+    emit("first:u32->u8", 1, "Tg<u32> = Ga", "Tg<u8> = Ga")
+    return out
+
+
 def edits_of(d):
+    if d.edits is not None:
+        return d.edits(d)
     if d.group:
         return group_edits(d)
     out = trait_edits(d, d.main)
